@@ -301,12 +301,15 @@ META = {
                    "the meter is unbounded, then exactly one entry [old total, value, content] is appended, earlier entries and "
                    "the bar length are untouched and the total advances by 1/value; otherwise False and nothing changes; "
                    "remove_last_entry on a bar in ANY state drops exactly the last entry, takes its length off the total and "
-                   "raises IndexError on an empty bar. The "
+                   "raises IndexError on an empty bar; place_notes_at (bars of 0..3 sounding entries) adds the notes to exactly the "
+                   "entries that start at the given beat and bar[i] = container replaces exactly that entry's content "
+                   "(negative indices from the end, out of range raises IndexError), every other entry keeping its beat, "
+                   "value and container object. The "
                    "history clauses (start beats are prefix sums over IEEE floats, the coded acceptance test coincides with the "
                    "exact-rational one for the value vocabulary) depend on IEEE rounding: decided by the driver against an exact "
                    "Fraction model.",
         level_note=TB + " float-as-real in the deductive part; the float-vs-rational question is bounded only.",
-        explanation="Deductive: Bar.set_meter, is_full, space_left, place_notes (3 argument shapes), remove_last_entry. Bounded: bounded/drivers/C13.py.",
+        explanation="Deductive: Bar.set_meter, is_full, space_left, place_notes (4 argument shapes), remove_last_entry, place_notes_at, __setitem__, empty, __len__, value_left. Bounded: bounded/drivers/C13.py.",
     ),
     "C14": dict(
         claimed=True, level="other",
